@@ -6,6 +6,7 @@ import os
 
 os.environ.setdefault("TQDM_DISABLE", "1")
 
+import numpy as np  # noqa: E402
 import torch  # noqa: E402
 
 import torch_frame  # noqa: E402
@@ -15,8 +16,8 @@ from harness import common as C  # noqa: E402
 from harness import dfgen as D  # noqa: E402
 
 PROP = "C10"
-HEADER = "Require Import PF.Lib.ListX PF.Lib.Chunks PF.Model.Loader."
-MODEL_TARGETS = ["Model/Loader.vo"]
+HEADER = "Require Import PF.Lib.ListX PF.Lib.Chunks PF.Model.Loader PF.Model.LoaderCall."
+MODEL_TARGETS = ["Model/Loader.vo", "Model/LoaderCall.vo"]
 SHARD = 250
 RULE = ("one or two epochs of a torch_frame DataLoader over a TensorFrame (dense, ragged, embedding, dict-valued "
         "columns, with/without y, with/without an explicit num_rows, feature-less) or a materialized / unmaterialized Dataset of 0..12 rows with a "
@@ -26,6 +27,8 @@ TRUSTED = [
     "Coq 8.16.1 kernel + vm_compute (no native_compute)",
     "hand-written model coq/Model/Loader.v of torch_frame/data/loader.py, tied to /repo by this run's observational "
     "correspondence (every batch of every epoch, len(loader), raise/no-raise)",
+    "call-level model coq/Model/LoaderCall.v (Python positional/keyword binding, kwargs.pop/get/set, torch's option "
+    "checks) evaluated on the exact positional arguments and keyword dictionary of every generated call",
     "modelled primitives: torch SequentialSampler (seq 0 n), BatchSampler (chunks / drop_last), user sampler and "
     "batch_sampler iterables, dense/ragged row gathering as list gathering (C05/C07)",
     "section hypothesis H_shuffle_perm (RandomSampler yields a permutation of range(n)), validated on every shuffled "
@@ -33,7 +36,9 @@ TRUSTED = [
     "harness/c10.py (generator, plain-Python chunking oracle, Coq literal printer), harness/dfgen.py (Dataset builder)",
 ]
 ASSUMPTIONS = [
-    "single-process loading (num_workers=0), no pinning, CPU",
+    "single-process loading (num_workers=0), no pinning, CPU (num_workers, pin_memory, timeout, worker_init_fn, "
+    "multiprocessing_context, prefetch_factor, persistent_workers, pin_memory_device, in_order are left at their defaults: "
+    "worker processes are outside the property; batch_size=None (no auto-batching) is outside the quantifier 1..n+1)",
     "what a row of a TensorFrame is (coherent selection across columns) is C07; here rows are compared by content",
     "the order drawn by torch's RandomSampler is an input of the model (witnessed from the observed epoch)",
     "'a user-supplied collate function cannot replace the row-selection collation' and 'each batch equals selecting "
@@ -41,6 +46,39 @@ ASSUMPTIONS = [
     "gather); for the real class they are OBSERVED by this harness on every run: a recording collate_fn is passed in "
     "~30 % of the loaders and must never be called (oracle keys collate-called / collate-replaced), and every batch is "
     "compared cell by cell with the independently known source rows (batch-content:*)",
+]
+
+# Clause-by-clause coverage of the property statement (PART A audit): clause -> oracle keys that judge it
+# -> generator kinds that exercise it.  sanity() fails closed when a generator kind is never drawn.
+CLAUSES = [
+    # statement clauses
+    ("batches together contain every row exactly once, in order without shuffling",
+     ["batch-content:sequential:*", "batch-count:sequential", "rows-served:sequential", "len:sequential"],
+     ["sampling=sequential (shuffle omitted / False / None, keyword or positional)", "bs_vs_n: n=0, bs>n, bs|n, rem1, rem>1"]),
+    ("... as a permutation with shuffling",
+     ["row-twice:shuffle", "coverage:shuffle", "foreign-row:shuffle", "batch-size:shuffle", "raises:init:empty-shuffle"],
+     ["sampling=shuffle by keyword / positionally / with generator=", "empty_shuffle_kw", "empty_shuffle_positional",
+      "two_epochs"]),
+    ("each batch equals selecting its rows from the source frame",
+     ["batch-content:*", "names", "columns-disagree", "stale-num-rows:*", "len-vs-num-rows", "batch-invalid",
+      "batch-overwritten", "batches-share-storage", "foreign-row:shuffle", "direct-collate:*", "direct-collate-raises:*",
+      "no-raise:*"],
+     ["every stype incl. dict-valued and ragged", "with/without y", "explicit_num_rows", "featureless",
+      "sampler with repeats / out-of-range index", "direct collate_fn(list|range|slice|tensor|int)"]),
+    ("every batch has the configured size except possibly a smaller (or, if requested, dropped) last one",
+     ["batch-size:*", "batch-count:*", "rows-served:*", "len:*"],
+     ["drop_last True / False spelled out / omitted", "batch_size keyword / positional / omitted (default 1)"]),
+    ("a loader built from an unmaterialized dataset serves the same rows as materializing it first",
+     ["batch-content:*:ds_unmat", "not-materialized", "source-rows"],
+     ["src=ds_unmat", "src=ds", "src=ds with view (row-selected materialized dataset)"]),
+    ("a user-supplied collate function cannot replace the row-selection collation",
+     ["collate-called", "collate-replaced", "not-a-frame"],
+     ["collate_form=user", "collate_form=none (collate_fn=None)", "collate_form=omitted"]),
+    # quantifier
+    ("custom samplers", ["batch-content:sampler:*", "batch-content:batch_sampler:*", "batch-size:sampler", "no-raise:*"],
+     ["sampler_form: list / object / tuple / numpy / tensor / generator, keyword or positional",
+      "bsampler_form: list / object", "batch_sampler + drop_last (torch rejects)"]),
+    ("TensorFrame and Dataset sources", ["*"], ["src=tf / ds / ds_unmat / ds view"]),
 ]
 
 STYPES = ["numerical", "categorical", "timestamp", "embedding", "multicategorical", "sequence_numerical",
@@ -227,6 +265,14 @@ def gen_ds_desc(rng, n):
     return desc
 
 
+# mirrored in coq/Model/LoaderCall.v (torch_params / torch_kwonly); sanity() compares with the live signature
+TORCH_PARAMS = ["batch_size", "shuffle", "sampler", "batch_sampler", "num_workers", "collate_fn", "pin_memory",
+                "drop_last", "timeout", "worker_init_fn", "multiprocessing_context", "generator"]
+TORCH_KWONLY = ["prefetch_factor", "persistent_workers", "pin_memory_device", "in_order"]
+SAMPLER_FORMS = ["list", "object", "tuple", "numpy", "tensor", "generator"]
+DIRECT_FORMS = ["list", "range", "slice", "tensor", "int"]
+
+
 def gen_case(rng, n=None, bs=None, src=None, shuffle=None, drop_last=None, plain=False, positional=None):
     n = rng.wpick([(1, 0), (1, 1), (2, 2), (2, 3), (6, rng.randint(4, 12))]) if n is None else n
     bs = rng.randint(1, n + 1) if bs is None else bs
@@ -246,6 +292,24 @@ def gen_case(rng, n=None, bs=None, src=None, shuffle=None, drop_last=None, plain
         case["positional_bs"] = case["positional_shuffle"] = bool(positional)
     if bsamp is not None and not plain and rng.chance(0.15):
         case["drop_last"] = True     # torch rejects batch_sampler together with drop_last (ValueError at construction)
+    # ---- the forms in which the arguments are passed (torch.utils.data.DataLoader's public signature)
+    if bsamp is None and not case["positional_bs"] and not plain and rng.chance(0.08):
+        case["bs"] = 1
+        case["bs_omitted"] = True                # batch_size left at its default (1)
+    # shuffle=False can be given as False, as None, or not at all
+    case["shuffle_false_form"] = rng.pick(["false", "none", "omitted"])
+    case["sampler_form"] = rng.pick(SAMPLER_FORMS)
+    if sampler is not None and not plain and rng.chance(0.25):
+        case["positional_bs"], case["sampler_positional"] = True, True      # DataLoader(src, bs, False, sampler)
+    case["bsampler_form"] = rng.pick(["list", "object"])
+    case["collate_form"] = "user" if case["user_collate"] else rng.pick(["omitted", "omitted", "none"])
+    case["drop_last_false_kw"] = rng.chance(0.3)          # drop_last=False spelled out
+    case["generator"] = bool(sh and sampler is None and bsamp is None and rng.chance(0.3))   # generator=torch.Generator()
+    case["direct"] = [] if plain else rng.sample(DIRECT_FORMS, rng.randint(0, 2))
+    if src == "ds" and n > 0 and not plain and sampler is None and bsamp is None and rng.chance(0.4):
+        # a materialized dataset that was row-selected afterwards: len(dataset) and its tensor frame shrink together
+        a = rng.randint(0, n - 1)
+        case["view"] = [a, rng.randint(a, n)]
     if src == "tf":
         case["tf"] = gen_tf_spec(rng, n)
     else:
@@ -311,6 +375,111 @@ class ListSampler(torch.utils.data.Sampler):
         return len(self.idx)
 
 
+class GenSampler:
+    """A sampler that is a plain iterable class (no torch base class), yielding lazily."""
+
+    def __init__(self, idx):
+        self.idx = list(idx)
+
+    def __iter__(self):
+        for i in self.idx:
+            yield i
+
+    def __len__(self):
+        return len(self.idx)
+
+
+class ListBatchSampler:
+    def __init__(self, bss):
+        self.bss = [list(b) for b in bss]
+
+    def __iter__(self):
+        return iter([list(b) for b in self.bss])
+
+    def __len__(self):
+        return len(self.bss)
+
+
+def call_desc(case):
+    """(positional, keyword) arguments after the source, as (name, kind, value) triples: the single description
+    from which both the real call and the Coq literal of the call-level model are printed."""
+    args, kw = [], []
+    if case["batch_sampler"] is not None:
+        kw.append(("batch_sampler", "bsampler", case["batch_sampler"]))
+        if case["drop_last"]:
+            kw.append(("drop_last", "bool", True))
+    else:
+        if case["positional_bs"]:
+            args.append(("batch_size", "nat", case["bs"]))
+        elif not case.get("bs_omitted"):
+            kw.append(("batch_size", "nat", case["bs"]))
+        sh = bool(case["shuffle"]) and case["sampler"] is None
+        if case["positional_bs"] and (case.get("positional_shuffle") or case.get("sampler_positional")):
+            args.append(("shuffle", "bool", sh))
+        elif sh:
+            kw.append(("shuffle", "bool", True))
+        else:
+            form = case.get("shuffle_false_form", "false" if case["seed"] % 2 else "omitted")
+            if form == "false":
+                kw.append(("shuffle", "bool", False))
+            elif form == "none":
+                kw.append(("shuffle", "none", None))
+        if case["sampler"] is not None:
+            (args if case.get("sampler_positional") else kw).append(("sampler", "sampler", case["sampler"]))
+        if case["drop_last"]:
+            kw.append(("drop_last", "bool", True))
+        elif case.get("drop_last_false_kw"):
+            kw.append(("drop_last", "bool", False))
+        if case.get("generator"):
+            kw.append(("generator", "opaque", None))
+    cf = case.get("collate_form", "user" if case["user_collate"] else "omitted")
+    if cf == "user":
+        kw.append(("collate_fn", "collate", 7))
+    elif cf == "none":
+        kw.append(("collate_fn", "none", None))
+    return args, kw
+
+
+def py_value(case, kind, value, ucoll):
+    if kind in ("nat", "bool", "none"):
+        return value
+    if kind == "sampler":
+        form = case.get("sampler_form", "object" if case["seed"] % 3 else "list")
+        idx = list(value)
+        return {"list": lambda: idx, "object": lambda: ListSampler(idx), "tuple": lambda: tuple(idx),
+                "numpy": lambda: np.array(idx, dtype=np.int64), "tensor": lambda: torch.tensor(idx, dtype=torch.long),
+                "generator": lambda: GenSampler(idx)}[form]()
+    if kind == "bsampler":
+        bss = [list(b) for b in value]
+        return ListBatchSampler(bss) if case.get("bsampler_form") == "object" else bss
+    if kind == "opaque":
+        g = torch.Generator()
+        g.manual_seed(case["seed"])
+        return g
+    if kind == "collate":
+        return ucoll
+    raise ValueError(kind)
+
+
+def coq_value(kind, value):
+    nl = lambda xs: C.clist(xs, C.cnat)  # noqa: E731
+    if kind == "nat":
+        return f"PNat {C.cnat(value)}"
+    if kind == "bool":
+        return f"PBool {C.cbool(value)}"
+    if kind == "none":
+        return "PNone"
+    if kind == "sampler":
+        return f"PSampler {nl(value)}"
+    if kind == "bsampler":
+        return f"PBatchSampler {C.clist(value, nl)}"
+    if kind == "opaque":
+        return "POpaque"
+    if kind == "collate":
+        return f"PCollate {C.cnat(value)}"
+    raise ValueError(kind)
+
+
 def read_batch(b):
     if not isinstance(b, TensorFrame):
         return {"type": type(b).__name__, "repr": repr(b)[:120]}
@@ -357,30 +526,15 @@ def run(case):
         src, _ = D.build_dataset(case["frame"])
         if case["src"] == "ds":
             src.materialize()
-    kw = {}
-    args = []
-    if case["batch_sampler"] is not None:
-        kw["batch_sampler"] = [list(b) for b in case["batch_sampler"]]
-        if case["drop_last"]:
-            kw["drop_last"] = True
-    else:
-        if case["positional_bs"]:
-            args.append(case["bs"])
-        else:
-            kw["batch_size"] = case["bs"]
-        if case["positional_bs"] and case.get("positional_shuffle"):
-            args.append(bool(case["shuffle"]))
-        elif case["shuffle"]:
-            kw["shuffle"] = True
-        elif case["seed"] % 2:
-            kw["shuffle"] = False
-        if case["sampler"] is not None:
-            kw["sampler"] = ListSampler(case["sampler"]) if case["seed"] % 3 else list(case["sampler"])
-        if case["drop_last"]:
-            kw["drop_last"] = True
+    if case.get("view"):
+        a_, b_ = case["view"]
+        src = src[a_:b_]                       # Dataset.__getitem__ with a slice: a derived, materialized dataset
+        full = obs["src"]
+        obs["src"] = slice_tfj(full, a_, b_)
     ucoll = RecordingCollate()
-    if case["user_collate"]:
-        kw["collate_fn"] = ucoll
+    adesc, kdesc = call_desc(case)
+    args = [py_value(case, k, v, ucoll) for _, k, v in adesc]
+    kw = {name: py_value(case, k, v, ucoll) for name, k, v in kdesc}
     try:
         loader = DataLoader(src, *args, **kw)
         obs["len"] = len(loader)
@@ -410,7 +564,34 @@ def run(case):
     for ep, objs in zip(obs["epochs"], kept):
         ep["reread"] = [read_batch(b) for b in objs]
     obs["user_collate_calls"] = ucoll.calls
+    # the public collate_fn method called directly with every kind of row index
+    obs["direct"] = []
+    m = len(src)
+    for form in case.get("direct", []):
+        if m == 0 and form in ("int",):
+            continue
+        a_, b_ = (case["seed"] % (m + 1)), (case["seed"] // 7) % (m + 1)
+        lo, hi = min(a_, b_), max(a_, b_)
+        idx = [(case["seed"] // (k + 2)) % m for k in range(3)] if m else []
+        ix, pos = {"list": (idx, idx), "range": (range(lo, hi), list(range(lo, hi))),
+                   "slice": (slice(lo, hi), list(range(lo, hi))),
+                   "tensor": (torch.tensor(idx, dtype=torch.long), idx),
+                   "int": (lo % m if m else 0, [lo % m] if m else [])}[form]
+        rec = {"form": form, "rows": pos}
+        try:
+            rec["batch"] = read_batch(loader.collate_fn(ix))
+        except Exception as ex:
+            rec["exc"] = f"{C.exc_name(ex)}: {str(ex)[:120]}"
+        obs["direct"].append(rec)
     return obs
+
+
+def slice_tfj(tfj, a, b):
+    out = {"num_rows": max(0, min(b, tfj["num_rows"]) - a), "names": tfj["names"], "feats": {},
+           "y": None if tfj["y"] is None else tfj["y"][a:b]}
+    for st, f in tfj["feats"].items():
+        out["feats"][st] = {k: v[a:b] for k, v in f.items()} if isinstance(f, dict) else f[a:b]
+    return out
 
 
 # ------------------------------------------------------------------------ oracle
@@ -425,6 +606,13 @@ def expected_index_batches(case, order):
     if case["drop_last"]:
         bats = [b for b in bats if len(b) == case["bs"]]
     return bats
+
+
+def eff_n(case):
+    """Number of rows of the source the loader is built from."""
+    if case.get("view"):
+        return max(0, min(case["view"][1], case["n"]) - case["view"][0])
+    return case["n"]
 
 
 def sampling_kind(case):
@@ -454,7 +642,7 @@ def oracle(case, obs):
     if "harness_exc" in obs:
         return dict(key="harness-exc", what="harness failed to run the case: " + obs["harness_exc"], tb=obs.get("tb"))
     kind = sampling_kind(case)
-    n, bs = case["n"], case["bs"]
+    n, bs = eff_n(case), case["bs"]
     rows, names = source_rows(case, obs)
     if case["src"] == "tf" and rows_of(obs["src"]) != rows:
         return dict(key="harness-source", what="harness built a source frame that differs from its own description")
@@ -574,6 +762,18 @@ def oracle(case, obs):
                                                          f"{served} rows were to be served")
         if obs["len"] != len(exp):
             return dict(key=f"len:{kind}", what=f"len(loader) = {obs['len']} but an epoch has {len(exp)} batches")
+    # the public collate_fn called directly: the selection of the given rows, for every kind of row index
+    for rec in obs.get("direct", []):
+        if "exc" in rec:
+            return dict(key=f"direct-collate-raises:{rec['form']}",
+                        what=f"loader.collate_fn(<{rec['form']} index>) raised {rec['exc']}", expected=rec["rows"])
+        b = rec["batch"]
+        want_rows = [rows[i] for i in rec["rows"]]
+        if b["type"] != "TensorFrame" or rows_of(b["tf"]) != want_rows or b["len"] != len(want_rows) \
+                or b["validate"] is not None:
+            return dict(key=f"direct-collate:{rec['form']}",
+                        what=f"loader.collate_fn(<{rec['form']} index>) is not the selection of rows {rec['rows']}",
+                        expected=want_rows, observed=b.get("tf"))
     return None
 
 
@@ -652,6 +852,30 @@ def stats(cases, obss):
             n == 0 and c["shuffle"] and k == "shuffle" and not c.get("positional_shuffle"))
         d["empty_shuffle_positional"] = d.get("empty_shuffle_positional", 0) + bool(
             n == 0 and c["shuffle"] and k == "shuffle" and c.get("positional_shuffle"))
+        adesc, kdesc = call_desc(c)
+        forms = d.setdefault("call_forms", {})
+
+        def bump(key):
+            forms[key] = forms.get(key, 0) + 1
+        given = {t[0]: ("pos", t) for t in adesc}
+        given.update({t[0]: ("kw", t) for t in kdesc})
+        for name in ("batch_size", "shuffle", "sampler", "batch_sampler", "drop_last", "collate_fn", "generator"):
+            if name not in given:
+                bump(f"{name}:omitted")
+            else:
+                how, t = given[name]
+                val = {"bool": str(t[2]), "none": "None"}.get(t[1], "")
+                bump(f"{name}:{how}" + (f":{val}" if val else ""))
+        if c["sampler"] is not None:
+            bump("sampler_form:" + c.get("sampler_form", "list"))
+        if c["batch_sampler"] is not None:
+            bump("bsampler_form:" + c.get("bsampler_form", "list"))
+            if c["drop_last"]:
+                bump("batch_sampler+drop_last")
+        for f in c.get("direct", []):
+            bump("direct:" + f)
+        if c.get("view"):
+            bump("ds_view")
         if c["src"] == "tf":
             d["explicit_num_rows"] += bool(c["tf"]["cols"] and c["tf"].get("explicit_num_rows"))
             d["featureless"] += not c["tf"]["cols"]
@@ -693,6 +917,25 @@ def sanity(cases, obss):
     for st in STYPES:
         if not d["stypes"].get(st):
             probs.append(f"stype {st} never drawn")
+    need = ["batch_size:kw", "batch_size:pos", "batch_size:omitted",
+            "shuffle:kw:True", "shuffle:kw:False", "shuffle:kw:None", "shuffle:pos:True", "shuffle:pos:False",
+            "shuffle:omitted", "sampler:kw", "sampler:pos", "sampler:omitted", "batch_sampler:kw",
+            "drop_last:kw:True", "drop_last:kw:False", "drop_last:omitted",
+            "collate_fn:kw", "collate_fn:kw:None", "collate_fn:omitted", "generator:kw", "ds_view",
+            "batch_sampler+drop_last"] + \
+           ["sampler_form:" + f for f in SAMPLER_FORMS] + ["bsampler_form:list", "bsampler_form:object"] + \
+           ["direct:" + f for f in DIRECT_FORMS]
+    for k in need:
+        if not d.get("call_forms", {}).get(k):
+            probs.append(f"argument form {k} never drawn")
+    # the parameter list the call-level Coq model binds positional arguments to must be the live one
+    import inspect
+    live = [p_ for p_ in inspect.signature(torch.utils.data.DataLoader.__init__).parameters][2:]
+    if live != TORCH_PARAMS + TORCH_KWONLY:
+        probs.append(f"torch.utils.data.DataLoader signature changed: {live} (coq/Model/LoaderCall.v torch_params)")
+    own = list(inspect.signature(DataLoader.__init__).parameters)
+    if own != ["self", "dataset", "args", "kwargs"]:
+        probs.append(f"torch_frame DataLoader.__init__ signature changed: {own}")
     if d["zero_batches"] > 0.5 * tot:
         probs.append(f"{d['zero_batches']} of {tot} epochs deliver no batch")
     return probs
@@ -714,7 +957,10 @@ def coq_term(case, obs):
         tf = f"(Some {nl(toks)})" if case["src"] == "ds" else "None"
         src = f"(SrcDataset {{| ds_df := {nl(toks)}; ds_tf := {tf} |}})"
     coll = "(Some (fun _ => Some [4999%nat]))" if case["user_collate"] else "None"
-    n = case["n"]
+    n = eff_n(case)
+    adesc, kdesc = call_desc(case)
+    cargs = C.clist(adesc, lambda t: coq_value(t[1], t[2]))
+    ckw = C.clist(kdesc, lambda t: f'("{t[0]}"%string, {coq_value(t[1], t[2])})')
     terms = []
     epochs = obs.get("epochs") or [None]
     for ep in epochs:
@@ -746,4 +992,6 @@ def coq_term(case, obs):
         kw = (f"{{| kw_batch_size := {C.cnat(case['bs'])}; kw_sampling := {smp}; "
               f"kw_drop_last := {C.cbool(bool(case['drop_last']))}; kw_collate_fn := {coll} |}}")
         terms.append(f"c10_obs_eqb (c10_run {src} {kw}) {o}")
+        # the call-level model: the positional arguments and the keyword dictionary exactly as passed
+        terms.append(f"c10_obs_eqb (c10_call_run {src} {cargs} {ckw} {nl(order)}) {o}")
     return "(" + " && ".join(terms) + ")"
